@@ -13,12 +13,15 @@ Import ListNotations.
 Local Open Scope Q_scope.
 
 (* ---------------------------------------------------------------------------------------------- validity table *)
-(* Every structure of the factory except J-Bessel passes every check against the reference table
+(* Every structure of the factory passes every check against the reference table
    (dimension, IRF order, support within the range, scadef, form / pinned text, parameter range). *)
-Theorem C03_table_ok : forall e, In e cov_table -> ce_name e <> "J-Bessel"%string -> failures e = [].
+Theorem C03_table_ok : forall e, In e cov_table -> failures e = [].
 Proof. exact table_ok_strict. Qed.
 Print Assumptions C03_table_ok.
-(* J-Bessel: the only remaining discrepancy (declared in every dimension whatever the parameter; known finding) *)
+(* J-Bessel: valid in R^d iff the parameter is >= (d-2)/2; the generated table records that the code keeps it there *)
+Theorem C03_besselj_param_bound : forall e, In e cov_table -> ce_name e = "J-Bessel"%string -> ce_parmin_dim e = true.
+Proof. exact besselj_param_bound. Qed.
+(* (kept for the check's verdict logic: the list of tolerated discrepancies is empty) *)
 Theorem C03_table_ok_partial : forall e, In e cov_table ->
   forall code, In code (failures e) -> In (ce_name e, code) known_discrepancies.
 Proof. exact table_entry_ok. Qed.
@@ -282,6 +285,12 @@ Print Assumptions C03_besselj_bracket.
 Theorem C03_sphere_spectrum_nonneg : forall type param scale n l,
   0 <= scale -> 0 <= param -> sphere_spectrum type param scale n = Some l -> Forall (fun x => 0 <= x) l.
 Proof. exact sphere_spectrum_nonneg. Qed.
+Theorem C03_sphere_spectrum_markov_nonneg : forall cs scale n,
+  Forall (fun c => 0 <= c) cs -> (match cs with c :: _ => 0 < c | [] => False end) -> Forall (fun x => 0 <= x) (spec_markov cs scale n).
+Proof. exact spec_markov_nonneg. Qed.
+(* Exponential on the sphere: the coefficients of the recursion are >= 0 whatever the value e of exp(-nu pi) in [0,1] *)
+Theorem C03_sphere_spectrum_exponential_nonneg : forall nu e, 0 <= e -> e <= 1 -> forall k, 0 <= spec_exp_gen nu e k.
+Proof. exact spec_exp_gen_nonneg. Qed.
 (* partial: hypothesis [schoenberg] = the Legendre matrices P_k(cos theta_ij) are PSD (cited) *)
 Theorem C03_sphere_psd_partial : forall n N (P : nat -> fmat) (a : list Q),
   (forall k, (k < N)%nat -> psd n (P k)) -> Forall (fun x => 0 <= x) a -> psd n (fun i j => sumn N (fun k => nth k a 0 * P k i j)).
@@ -375,6 +384,9 @@ Proof. vm_compute. repeat split; reflexivity. Qed.
 Example C03_nonvacuous_spectrum :
   sphere_spectrum 29 (3#2) 1 3 = Some [16#67; 24#67; 18#67; 9#67] /\ sphere_spectrum 30 1 1 5 = Some [0; 64#77; 0; 4#33; 0; 1#21].
 Proof. vm_compute. split; reflexivity. Qed.
+Example C03_nonvacuous_spectrum_markov_exp :
+  normalize1 (spec_markov [1; 1#2] 1 2) = [4#15; 2#5; 1#3] /\ 0 < spec_exp_gen 3 (1#2) 4 /\ spec_exp_gen 3 (1#2) 0 == 3#40.
+Proof. vm_compute. repeat split; reflexivity. Qed.
 Example C03_nonvacuous_triangle :
   (* 4 nodes, range = 3 spacings: correlations 1, 2/3, 1/3, 0 *)
   map (fun j => Qred (cor_triangle (grid_h 3 0 j))) [0; 1; 2; 3]%nat = [1; 2#3; 1#3; 0].
